@@ -18,6 +18,10 @@ OPCODE = {"=": 10, "!=": 11, "=~": 12, "!~": 13}
 NEG = {"=": "!=", "!=": "=", "=~": "!~", "!~": "=~"}
 
 
+GUARD_OK = "1700000000"
+GUARD_OUT = "2023-11-14 22:13:20 +0000 UTC"     # fmt of time.Unix(1700000000, 0) under TZ=UTC: what {{ unixToTime .t }} prints
+
+
 def B(s):
     return s if isinstance(s, bytes) else s.encode("utf-8", "surrogateescape")
 
@@ -148,29 +152,60 @@ def gen_ippat(rng, addrs):
 
 
 # ------------------------------------------------------------------ templates
-def gen_template(rng, labels, allow_fail=True):
+def gen_template(rng, labels, allow_fail=True, guard_label=None):
+    """returns (text, coq, items); items = python view for computing the expected expansion (see expand_py)"""
     items, txt, coq = [], [], []
     for _ in range(rng.randint(1, 4)):
-        k = rng.randrange(9 if allow_fail else 8)
+        k = rng.randrange(10 if allow_fail else 8)
         if k <= 1:
             t = rng.choice(["", " ", "x=", "-", "[", "] ", "lvl:", "é"])
-            txt.append(t); coq.append("TText %s" % cbytes(B(t)))
+            txt.append(t); coq.append("TText %s" % cbytes(B(t))); items.append(("text", t))
         elif k <= 3:
             l = rng.choice(labels)
-            txt.append("{{.%s}}" % l); coq.append("TLabel %s" % cbytes(B(l)))
+            txt.append("{{.%s}}" % l); coq.append("TLabel %s" % cbytes(B(l))); items.append(("label", l))
         elif k == 4:
-            txt.append("{{ __line__ }}"); coq.append("TLine")
+            txt.append("{{ __line__ }}"); coq.append("TLine"); items.append(("line",))
         elif k == 5:
-            txt.append("{{ __timestamp__ | unixEpochNanos }}"); coq.append("TTsNanos")
+            txt.append("{{ __timestamp__ | unixEpochNanos }}"); coq.append("TTsNanos"); items.append(("ts",))
         elif k == 6:
             l = rng.choice(labels)
-            txt.append("{{ .%s | ToUpper }}" % l); coq.append("TUpper %s" % cbytes(B(l)))
+            txt.append("{{ .%s | ToUpper }}" % l); coq.append("TUpper %s" % cbytes(B(l))); items.append(("upper", l))
         elif k == 7:
             l = rng.choice(labels)
-            txt.append("{{ .%s | ToLower }}" % l); coq.append("TLower %s" % cbytes(B(l)))
+            txt.append("{{ .%s | ToLower }}" % l); coq.append("TLower %s" % cbytes(B(l))); items.append(("lower", l))
+        elif k == 8 and guard_label:
+            txt.append("{{ unixToTime .%s }}" % guard_label)
+            coq.append("TGuard %s %s %s" % (cbytes(B(guard_label)), cbytes(B(GUARD_OK)), cbytes(B(GUARD_OUT)))); items.append(("guard", guard_label))
         else:
-            txt.append('{{ unixToTime "zz" }}'); coq.append("TFail")
-    return "".join(txt), clist(coq)
+            txt.append('{{ unixToTime "zz" }}'); coq.append("TFail"); items.append(("fail",))
+    return "".join(txt), clist(coq), items
+
+
+def expand_py(items, ts, line: bytes, labels: dict):
+    """independent evaluation of a generated template; None = the template fails"""
+    out = b""
+    get = lambda n: labels.get(B(n), b"")
+    for it in items:
+        k = it[0]
+        if k == "text":
+            out += B(it[1])
+        elif k == "label":
+            out += get(it[1])
+        elif k == "line":
+            out += line
+        elif k == "ts":
+            out += str(ts).encode()
+        elif k == "upper":
+            out += bytes((c - 32) if 97 <= c <= 122 else c for c in get(it[1]))
+        elif k == "lower":
+            out += bytes((c + 32) if 65 <= c <= 90 else c for c in get(it[1]))
+        elif k == "guard":
+            if get(it[1]) != B(GUARD_OK):
+                return None
+            out += B(GUARD_OUT)
+        else:
+            return None
+    return out
 
 
 # ------------------------------------------------------------------ JSON documents
@@ -370,6 +405,8 @@ ATTR_POOL = {
     "host": ["h1", "h2", "h-3"],
     "user.name": ["bob", "alice"],
     "http-code": ["200", "500"],
+    "env": ["prod", "production", "nonprod", "dev"],
+    "t": [GUARD_OK, "zz", GUARD_OK, "17"],
 }
 QLABELS = [key_to_label(k.encode()).decode() for k in ATTR_POOL]      # label names as the engine sees them
 QPOOL = {key_to_label(k.encode()).decode(): v for k, v in ATTR_POOL.items()}
@@ -522,9 +559,9 @@ class EGen:
     def st_distinct(self, labels):
         return {"k": "distinct", "labels": list(labels), "coq": "EDistinct %s" % clist(cbytes(B(l)) for l in labels)}
 
-    def st_line_format(self, labels, allow_fail=True):
-        t, coq = gen_template(self.rng, labels, allow_fail)
-        return {"k": "linefmt", "t": t, "coq": "ELineFormat %s" % coq}
+    def st_line_format(self, labels, allow_fail=True, guard_label=None):
+        t, coq, items = gen_template(self.rng, labels, allow_fail, guard_label)
+        return {"k": "linefmt", "t": t, "coq": "ELineFormat %s" % coq, "items": items}
 
     def st_label_format(self, renames, tmpls):
         """renames: [(dst, src)], tmpls: [(dst, text, coq)]"""
@@ -580,6 +617,20 @@ def oracles_coq(jsonl=(), logfmt=(), submatch=(), decolor=()):
         clist("(%s,%s)" % (cbytes(l), c) for l, c in jsonl),
         clist("(%s,%s)" % (cbytes(l), c) for l, c in logfmt), sm,
         clist("(%s,%s)" % (cbytes(l), cbytes(o)) for l, o in decolor))
+
+
+def base_labels(r):
+    """independent statement of LabelSet.SetFromRecord for generator records: dict bytes->bytes"""
+    d = {}
+    if r["line"]:
+        d[b"msg"] = r["line"]
+    for k, v in list(r["attrs"]) + list(r["res"]):
+        d[key_to_label(B(k))] = B(v)
+    return d
+
+
+def labels_coq(d):
+    return clist("(%s,%s)" % (cbytes(k), cbytes(v)) for k, v in sorted(d.items()))
 
 
 def dedup(pairs):
